@@ -61,16 +61,75 @@ func (p *Program) genObligations(fn *ssa.Function, mode ExecMode, rel *relCtx) (
 	return rep
 }
 
-func obligationScript(o *Obligation, goalNeg bool) string {
-	terms := append([]string{o.Goal}, o.Facts...)
+// obligationScript renders one query. With prune, only the facts in the cone of influence of
+// the goal (sharing declared symbols, transitively) are asserted: dropping hypotheses can only
+// make a proof fail, never succeed wrongly.
+func obligationScript(o *Obligation, goalNeg bool, prune bool) string {
+	facts := o.Facts
+	if prune && goalNeg {
+		rel := map[string]bool{}
+		for id := range identsIn(o.Goal) {
+			if o.Decls.isDeclared(id) {
+				rel[id] = true
+			}
+		}
+		type fi struct {
+			f   string
+			ids []string
+		}
+		var fis []fi
+		seen := map[string]bool{}
+		for _, f := range o.Facts {
+			if f == "true" || seen[f] {
+				continue
+			}
+			seen[f] = true
+			var ids []string
+			for id := range identsIn(f) {
+				if o.Decls.isDeclared(id) {
+					ids = append(ids, id)
+				}
+			}
+			fis = append(fis, fi{f, ids})
+		}
+		incl := make([]bool, len(fis))
+		changed := true
+		for changed {
+			changed = false
+			for i, x := range fis {
+				if incl[i] {
+					continue
+				}
+				hit := len(x.ids) == 0
+				for _, id := range x.ids {
+					if rel[id] {
+						hit = true
+						break
+					}
+				}
+				if hit {
+					incl[i] = true
+					changed = true
+					for _, id := range x.ids {
+						rel[id] = true
+					}
+				}
+			}
+		}
+		facts = nil
+		for i, x := range fis {
+			if incl[i] {
+				facts = append(facts, x.f)
+			}
+		}
+	}
+	terms := append([]string{o.Goal}, facts...)
 	o.Decls.mu.Lock()
 	defs := append([]string(nil), o.Decls.defs...)
 	o.Decls.mu.Unlock()
-	// definitions/axioms are included only when they mention a symbol that the query mentions
 	used := identsIn(terms...)
-	var inclDefs []string
-	changed := true
 	incl := map[int]bool{}
+	changed := true
 	for changed {
 		changed = false
 		for i, d := range defs {
@@ -94,19 +153,16 @@ func obligationScript(o *Obligation, goalNeg bool) string {
 			}
 		}
 	}
-	for i, d := range defs {
-		if incl[i] {
-			inclDefs = append(inclDefs, d)
-		}
-	}
 	var b strings.Builder
 	b.WriteString(o.Decls.scriptDecls(func(n string) bool { return used[n] }))
-	for _, d := range inclDefs {
-		b.WriteString(d)
-		b.WriteString("\n")
+	for i, d := range defs {
+		if incl[i] {
+			b.WriteString(d)
+			b.WriteString("\n")
+		}
 	}
 	seen := map[string]bool{}
-	for _, f := range o.Facts {
+	for _, f := range facts {
 		if f == "true" || seen[f] {
 			continue
 		}
@@ -168,8 +224,16 @@ func discharge(obs []*Obligation, opt dischargeOpts) {
 		go func() {
 			defer wg.Done()
 			defer func() { <-sem }()
-			script := obligationScript(o, true)
+			script := obligationScript(o, true, true)
 			r := solve(script, opt.timeoutMs, opt.all)
+			if r.Status != "unsat" {
+				// confirm with the full hypothesis set (a model of the pruned query may violate dropped facts)
+				full := obligationScript(o, true, false)
+				if full != script {
+					script = full
+					r = solve(script, opt.timeoutMs, opt.all)
+				}
+			}
 			o.Result = &r
 			if debugDir != "" && r.Status != "unsat" {
 				os.MkdirAll(debugDir, 0o755)
@@ -191,7 +255,7 @@ func dischargeCovers(obs []*Obligation, opt dischargeOpts) {
 		go func() {
 			defer wg.Done()
 			defer func() { <-sem }()
-			script := obligationScript(o, false)
+			script := obligationScript(o, false, false)
 			r := solve(script, opt.timeoutMs, false)
 			o.Result = &r
 		}()
